@@ -161,7 +161,9 @@ Records::Records(
 		mAction=WRITE;
 	}
 
-    make_scan_formats(mScanFormats,true);
+    // the delimiter is not part of the scan formats; it is read explicitly
+    // in scan_column_values
+    make_scan_formats(mScanFormats,false);
     make_print_formats(mPrintFormats);
 
 }
@@ -387,6 +389,16 @@ void Records::scan_column_values(long long fnum, char* input_buff)
             }
 
 
+		} else if (!mReadAsWhitespace) {
+            // Read the single delimiter or end of line character that follows
+            // the value, allowing blanks in front of it.  Nothing beyond that
+            // character is consumed: what follows can be a string field, or
+            // the string field that begins the next row, and white space or
+            // delimiter characters there are data
+            int c = fgetc(mFptr);
+            while (c == ' ') {
+                c = fgetc(mFptr);
+            }
 		}
         if (!skipping) {
             buff += mSizes[fnum]/mNel[fnum] ;
